@@ -109,8 +109,11 @@ package tq
 // C06: the hand-over callback authOkFunc (it releases the next worker, which
 // ends in a sync.WaitGroup.Done) runs at most once per transfer, however often
 // a rejected resume makes download start over.
+// C15: download starts over (without going back through the queue's retry
+// accounting) only from a resumed attempt - the measure fromByte decreases - so
+// one transfer makes at most two requests.
 //@ func (*basicDownloadAdapter).download
-//@   props C02 C09 C06
+//@   props C02 C09 C06 C15
 //@   ensures @C06 fncalls() <= old(fncalls()) + 1
 //@   ensures result == nil ==> moves(old(t.Path)) > old(moves(t.Path))
 //@   requires @inv t != nil && dlFile != nil && t.Path == objpath(t.Oid)
